@@ -2028,7 +2028,7 @@ def gen_cases(tier, rng):
     return cases
 
 
-LEVEL_TEXT = ("Machine-checked proof (Coq, 16 theorems, all closed under the global context) over an executable, structure-following model of "
+LEVEL_TEXT = ("Machine-checked proof (Coq, 17 theorems, all closed under the global context) over an executable, structure-following model of "
               "structure.py / net.py / realizability.py: (1) the siphon and trap index predicates equal the Petri-net definitions for every network "
               "and every species subset; (2) _minimal_sets returns exactly the inclusion-minimal candidates for every candidate list; (3) find_siphons / "
               "find_traps report exactly the minimal non-empty siphons / traps (for every max_size); (4) enabled <=> marking covers the reactants, "
@@ -2038,11 +2038,14 @@ LEVEL_TEXT = ("Machine-checked proof (Coq, 16 theorems, all closed under the glo
               "reload in any order): after every history the object holds the flow loaded last, its net and markings are those built from that "
               "flow, a stored certificate of a plain search is a correct firing sequence of that flow, and every answer equals the answer of a fresh object "
               "(history independence); a PetriAnalyzer kept while its network is edited always holds exactly the siphons / traps of the network "
-              "as it was at the last successful compute (never an earlier result); (8) completeness within the bounds, proved with the bounds and the existence premise stated on the extended Petri "
-              "net the code builds (_partial; the missing converse simulation is named in props/C20.v).  The model is tied to the Python code by "
+              "as it was at the last successful compute (never an earlier result); (8) completeness within the bounds, on the pathway itself (C20_realizable_complete): if some ordering fires each edge flow times, "
+              "covered at every step, back to zero, the (fired counts, species marking) states reachable by covered firings within the flow fit into "
+              "max_states and the sum of the positive flows is at most max_depth, then is_realizable returns a sequence — via the converse simulation "
+              "(an ordering of the pathway is a firing sequence of the extended net the code builds), one supply token per firing, and the search-level "
+              "completeness with the premises on the extended net (kept as C20_realizable_complete_partial).  The model is tied to the Python code by "
               "comparing, on every run, predicate values per subset, minimal sets, the built net, verdict, certificate and the number of "
               "enabled()/fire() calls of the search.")
 LEVEL_NOTE = ("Trusted: Coq kernel + vm_compute; the hand-written model and the harness encoders; CPython dict/set/deque/itertools semantics. "
               "Modelled, not verified: networkx graph storage; hypergraph_to_bipartite only as far as C20 reads it; caller-supplied nx graphs "
               "(directed / undirected) are covered by the correspondence only; siphon_persistence_condition (floating-point semiflows) is not "
-              "covered beyond its siphon input; completeness is _partial as described.")
+              "covered beyond its siphon input.")
